@@ -1,20 +1,25 @@
 (* C02 — the assembled LP means what the asset documentation says (reference equivalence).
    FULL STATEMENT (kept visible): for every portfolio of contracts, transports, storages and multi-commodity contracts the
    optimum of the assembled problem equals the optimum of the textbook formulation, and the returned dispatch is feasible there.
-   PROVED HERE (for every size, all inputs): the building blocks of that equivalence --
-     * the in/out split of a contract step represents exactly the flows in [min, max] and its cost is the true cost
-       price*f + spread*|f| whenever one side is zero, never less (so optima coincide);
-     * per-step limits are rate x step length;
-     * a transport delivers at node 2 what leaves node 1 times the efficiency;
-     * the storage level obeys the recursion of the statement (bounds: C05) and the holding-cost coefficients (tail sums)
-       charge exactly cost x step length x discount on (level - baseline);
-     * take rows are prorated (covered / period);
-     * the portfolio problem is the direct sum of the asset blocks coupled only by the nodal rows, value additive.
-   NOT PROVED (hence "partial"): the composition of these blocks into one statement "optimum = reference optimum" for an
-   arbitrary portfolio, and the discount factor itself (an irrational power: oracle).  That composition is decided per instance
-   by the check: the independent formulation harness/ref.py is solved next to EAO and EAO's dispatch is checked inside it. *)
-From Coq Require Import QArith Qabs ZArith List String Bool.
-From EAO Require Import Num LP Mapping Grid Assets StorageProofs Portfolio Ref.
+   PROVED HERE (for every size, all inputs):
+   (1) the composition (Reference.v): for ANY list of asset problems each of which realises a textbook object (admissible states,
+       discounted cost, flows into nodes) the assembled portfolio problem and the textbook program -- all assets admissible,
+       flows balanced at every node and step, cost additive -- have the same optimum; an optimal point of the assembled problem
+       decodes to an optimal state of the textbook program with exactly the reported flows, and its value is minus the textbook
+       cost (C02_lp_to_reference, C02_reference_to_lp, C02_optimum_is_reference_optimum);
+   (2) the instances: the model builders of Transport, Storage (one or two variables per step, charging efficiency, in / out /
+       holding costs, inflow, start / end level, two nodes) and SimpleContract (one variable per step, or the in/out split with a
+       non-negative spread) on a fine grid realise the textbook transport / storage / contract (C02_transport_unit,
+       C02_storage_unit, C02_contract_unit), so (1) applies to every portfolio built from them;
+   (3) the building blocks used above and for the classes not covered by (2): in/out split, limits = rate x step length,
+       transport flows, level recursion, holding cost by Abel summation, take prorating, portfolio = direct sum + nodal rows.
+   NOT PROVED (hence still "partial"): instances for Contract with min/max take rows, MultiCommodityContract, ExtendedTransport,
+   coarse / periodic asset grids and the binary options of the storage; the discount factor itself (an irrational power: the
+   builders receive it as data, the oracle compares it); and everything rests on the correspondence of the model builders with
+   assets.py.  For those classes the composition is decided per instance by the check: the independent formulation
+   harness/ref.py is solved next to EAO and EAO's dispatch is checked inside it. *)
+From Coq Require Import QArith Qabs ZArith List String Bool Lia Lqa.
+From EAO Require Import Num LP Mapping Grid Assets StorageProofs Portfolio Ref Reference RefCorr.
 Import ListNotations.
 Open Scope Q_scope.
 
@@ -79,6 +84,125 @@ Theorem C02_portfolio_blocks :
   value (ap_lp (portfolio nodes skip steps aps)) (List.concat xs) == qsum (map (fun ax => value (ap_lp (fst ax)) (snd ax)) (combine aps xs)).
 Proof. exact portfolio_blocks. Qed.
 Print Assumptions C02_portfolio_blocks.
+
+(* ---------- the composition: assembled problem = textbook program ---------- *)
+Theorem C02_lp_to_reference :
+  forall nodes skip steps (us : list unit_) (xs : list vec),
+  Forall u_ok us -> NoDup (map u_name us) ->
+  Forall2 (fun u x => List.length x = nvars (ap_lp (u_prob u))) us xs ->
+  feasible (ap_lp (portfolio nodes skip steps (map u_prob us))) (List.concat xs) ->
+  let ys := map (fun ux => u_dec (fst ux) (snd ux)) (combine us xs) in
+  ref_feasible nodes skip steps us ys /\
+  ref_cost us ys <= dot (lp_c (ap_lp (portfolio nodes skip steps (map u_prob us)))) (List.concat xs) /\
+  (forall n t, Forall2 Qeq (map (fun nm => dispatch_out (ap_map (portfolio nodes skip steps (map u_prob us))) (List.concat xs) nm n t) (map u_name us))
+                           (map (fun uy => tb_flow (u_tb (fst uy)) (snd uy) n t) (combine us ys))).
+Proof. exact lp_to_reference. Qed.
+Print Assumptions C02_lp_to_reference.
+
+Theorem C02_reference_to_lp :
+  forall nodes skip steps (us : list unit_) (ys : list vec),
+  Forall u_ok us -> NoDup (map u_name us) ->
+  ref_feasible nodes skip steps us ys ->
+  exists xs, Forall2 (fun u x => List.length x = nvars (ap_lp (u_prob u))) us xs /\
+    feasible (ap_lp (portfolio nodes skip steps (map u_prob us))) (List.concat xs) /\
+    dot (lp_c (ap_lp (portfolio nodes skip steps (map u_prob us)))) (List.concat xs) == ref_cost us ys.
+Proof. exact reference_to_lp. Qed.
+Print Assumptions C02_reference_to_lp.
+
+Theorem C02_optimum_is_reference_optimum :
+  forall nodes skip steps (us : list unit_) (xs : list vec),
+  Forall u_ok us -> NoDup (map u_name us) ->
+  Forall2 (fun u x => List.length x = nvars (ap_lp (u_prob u))) us xs ->
+  optimal (ap_lp (portfolio nodes skip steps (map u_prob us))) (List.concat xs) ->
+  let ys := map (fun ux => u_dec (fst ux) (snd ux)) (combine us xs) in
+  ref_optimal nodes skip steps us ys /\
+  value (ap_lp (portfolio nodes skip steps (map u_prob us))) (List.concat xs) == - ref_cost us ys.
+Proof. exact optimum_is_reference_optimum. Qed.
+Print Assumptions C02_optimum_is_reference_optimum.
+
+(* every point of the right length splits into asset blocks, so the three theorems above speak about every x *)
+Theorem C02_every_point_is_blocks :
+  forall (us : list unit_) (x : vec), List.length x = nvars (ap_lp (assemble (map u_prob us))) ->
+  exists xs, x = List.concat xs /\ Forall2 (fun u x => List.length x = nvars (ap_lp (u_prob u))) us xs.
+Proof. exact split_blocks. Qed.
+Print Assumptions C02_every_point_is_blocks.
+
+(* ---------- the instances ---------- *)
+Theorem C02_transport_unit :
+  forall g rg p a, transport g rg p = Some a -> rg_minor rg = None ->
+  List.length (rg_dt rg) = rg_T rg -> List.length (rg_disc rg) = rg_T rg ->
+  List.length (transport_costs g rg p) = rg_T rg -> String.eqb (tp_n1 p) (tp_n2 p) = false ->
+  u_ok {| u_name := tp_name p; u_prob := a; u_dec := fun x => x;
+          u_tb := tb_transport rg (tp_n1 p) (tp_n2 p) (transport_costs g rg p) (tp_min p) (tp_max p) (tp_eff p) |}.
+Proof. exact transport_unit_ok. Qed.
+Print Assumptions C02_transport_unit.
+
+Theorem C02_storage_unit :
+  forall g rg p a, storage g rg p = Some a -> rg_minor rg = None -> sp_no_simult p = false -> sp_max_dur p = None ->
+  rg_T rg <> 0%nat -> List.length (rg_dt rg) = rg_T rg -> List.length (rg_disc rg) = rg_T rg ->
+  match sp_price p with Some v => List.length v = g_T g | None => True end ->
+  u_ok {| u_name := sp_name p; u_prob := a; u_dec := fun x => x; u_tb := tb_storage rg p |}.
+Proof. exact storage_unit_ok. Qed.
+Print Assumptions C02_storage_unit.
+
+Theorem C02_contract_unit :
+  forall g rg p a maxc minc ec, simple_contract g rg p = Some a -> rg_minor rg = None ->
+  mkvec rg (cp_max p) None true = Some maxc -> mkvec rg (cp_min p) None true = Some minc ->
+  mkvec rg (cp_extra p) (Some 0) false = Some ec ->
+  List.length maxc = rg_T rg -> List.length minc = rg_T rg -> List.length ec = rg_T rg -> List.length (rg_disc rg) = rg_T rg ->
+  (forall t, (t < rg_T rg)%nat -> 0 <= nth t ec 0) -> (forall t, (t < rg_T rg)%nat -> 0 <= nth t (rg_disc rg) 0) ->
+  u_ok {| u_name := cp_name p; u_prob := a;
+          u_dec := if all_b eq0 ec || all_b le0 maxc || all_b ge0 minc then fun x => x else dec_split (rg_T rg);
+          u_tb := tb_contract rg (cp_node p) (pick 0 match cp_price p with Some v => v | None => repeat 0 (g_T g) end (rg_I rg)) ec minc maxc |}.
+Proof. exact contract_unit_ok. Qed.
+Print Assumptions C02_contract_unit.
+
+(* the boolean test the check evaluates on every generated portfolio (RefCorr.unit_hyps, names distinct) is enough for the
+   composition theorems to apply to the model of that portfolio *)
+Theorem C02_generated_portfolio_under_theorems :
+  forall g us units,
+  seq_units (map (mk_unit g) us) = Some units -> forallb (unit_hyps g) us = true -> nodup_b (map u_name units) = true ->
+  Forall u_ok units /\ NoDup (map u_name units).
+Proof. exact c02_hyps_sound. Qed.
+Print Assumptions C02_generated_portfolio_under_theorems.
+
+(* non-vacuity of the composition: a two-node portfolio -- market with a spread (in/out split), storage with charging
+   efficiency and holding cost, transport, fixed load -- whose units satisfy u_ok, with a feasible point *)
+Definition exg : grid := Build_grid [0; 3600; 7200]%Z 0%Z 7200%Z 3600%Z.
+Definition exrg : rgrid := restrict exg [1; 9#10] 0%Z 7200%Z.
+Definition ex_mkt : contract_p := Build_contract_p "mkt" "A" (Some [10; 20]) (PConst (-5)) (PConst 5) (PConst 1).
+Definition ex_load : contract_p := Build_contract_p "load" "B" None (PConst (-1)) (PConst (-1)) (PConst 0).
+Definition ex_sto : storage_p := Build_storage_p "sto" ["A"]%string 4 2 2 0 0 0 0 (1#10) (1#2) 0 None false None.
+Definition ex_tr : transport_p := Build_transport_p "tr" "A" "B" None 0 0 3 (1#2).
+Definition getp (o : option aprob) : aprob := match o with Some a => a | None => ap_empty end.
+Definition ex_units : list unit_ :=
+  [ {| u_name := "mkt"; u_prob := getp (simple_contract exg exrg ex_mkt); u_dec := dec_split 2;
+       u_tb := tb_contract exrg "A" [10; 20] [1; 1] [-5; -5] [5; 5] |};
+    {| u_name := "sto"; u_prob := getp (storage exg exrg ex_sto); u_dec := fun x => x; u_tb := tb_storage exrg ex_sto |};
+    {| u_name := "tr"; u_prob := getp (transport exg exrg ex_tr); u_dec := fun x => x;
+       u_tb := tb_transport exrg "A" "B" (transport_costs exg exrg ex_tr) 0 3 (1#2) |};
+    {| u_name := "load"; u_prob := getp (simple_contract exg exrg ex_load); u_dec := fun x => x;
+       u_tb := tb_contract exrg "B" [0; 0] [0; 0] [-1; -1] [-1; -1] |} ]%string.
+Example C02_composition_nonvacuous :
+  Forall u_ok ex_units /\ NoDup (map u_name ex_units) /\
+  feasible (ap_lp (portfolio ["A"; "B"]%string [] [0; 1]%nat (map u_prob ex_units)))
+           (List.concat [[0; 0; 4; 1]; [-2; 0; 0; 1]; [2; 2]; [-1; -1]]).
+Proof.
+  split; [|split].
+  - unfold ex_units. repeat (apply Forall_cons); [| | | |apply Forall_nil].
+    + apply (C02_contract_unit exg exrg ex_mkt _ [5; 5] [-5; -5] [1; 1]); try reflexivity.
+      * intros [|[|t]] H; cbn; try lra; vm_compute in H; lia.
+      * intros [|[|t]] H; cbn; try lra; vm_compute in H; lia.
+    + apply (C02_storage_unit exg exrg ex_sto); try reflexivity; try exact I. discriminate.
+    + apply (C02_transport_unit exg exrg ex_tr); reflexivity.
+    + apply (C02_contract_unit exg exrg ex_load _ [-1; -1] [-1; -1] [0; 0]); try reflexivity.
+      * intros [|[|t]] H; cbn; try lra; vm_compute in H; lia.
+      * intros [|[|t]] H; cbn; try lra; vm_compute in H; lia.
+  - cbn. repeat constructor; cbn; intuition discriminate.
+  - split.
+    + apply in_boxb_0. vm_compute. reflexivity.
+    + set (rows := lp_rows _). vm_compute in rows. subst rows. repeat (apply Forall_cons; [apply row_okb_0; vm_compute; reflexivity|]). apply Forall_nil.
+Qed.
 
 (* non-vacuity *)
 Example C02_nonvacuous :
